@@ -23,12 +23,16 @@ use std::io::Write;
 use std::sync::atomic::AtomicBool;
 use std::sync::{Arc, Mutex};
 
-pub const NAMES: [&str; 4] = ["dflt", "reno", "renoX", "cubic"];
+/// the third additional algorithm has the longest legal name (63 bytes)
+pub const LONG63: &str = "cubic_012345678901234567890123456789012345678901234567890123456";
+pub const NAMES: [&str; 4] = ["dflt", "reno", "renoX", LONG63];
 
-pub const PROGS: [(&str, &str); 7] = [
-    ("alpha", "(def (Report (volatile acked 0) (rtt 0)) (ctl 10) (volatile vctl 3))
+pub const ALPHA_SRC: &str = "(def (Report (volatile acked 0) (rtt 0)) (ctl 10) (volatile vctl 3))
         (when true (:= Report.acked (+ Report.acked Ack.bytes_acked)) (:= Report.rtt Flow.rtt_sample_us) (:= loc 5) (fallthrough))
-        (when (> Micros 3000) (report) (:= Micros 0))"),
+        (when (> Micros 3000) (report) (:= Micros 0))";
+
+pub const PROGS: [(&str, &str); 8] = [
+    ("alpha", ALPHA_SRC),
     ("beta", "(def (Report (volatile loss 0) (volatile sacked 0) (volatile inflight 0)) (thresh 100))
         (when true (:= Report.loss Ack.lost_pkts_sample) (:= Report.inflight Flow.packets_in_flight) (fallthrough))
         (when (> Report.loss thresh) (report))"),
@@ -40,6 +44,8 @@ pub const PROGS: [(&str, &str); 7] = [
     ("delta", "(def (Report (volatile m +infinity)) (a 1) (b 2) (c 3))
         (when true (:= Report.m (min Report.m Flow.rtt_sample_us)) (:= Rate (* a b)) (fallthrough))
         (when (> Micros c) (report) (:= Micros 0))"),
+    // the same text as alpha under another name: two compilations, two uids, one image
+    ("alpha2", ALPHA_SRC),
 ];
 
 /// names whose lookup result is part of a program's descriptor
@@ -74,7 +80,11 @@ pub enum REv { D(u8, Vec<Sym>), E, S }
 pub struct Ctx {
     pub probe: Option<Scope>,                   // a scope with 16 report variables, to read report values back
     pub boot_done: bool,
-    pub booting: bool,                          // the hidden bootstrap ready (teaches the harness the uid of every program)
+    pub booting: bool,                          // the hidden bootstrap (teaches the harness the uid of every program)
+    pub boot_step: u8,                          // hidden ready, hidden create (selects every program by name), hidden close
+    pub boot_name: Option<String>,              // the name being selected by the hidden flow
+    pub uid_name: HashMap<u32, String>,         // uid -> program name, learned from the hidden flow's change-program messages
+    pub boot_installs: Vec<(u32, Vec<u8>)>,     // (uid, image) of the hidden ready's install messages
     pub log: Vec<String>,
     pub script: std::collections::VecDeque<REv>,
     pub sends: usize,
@@ -116,8 +126,10 @@ impl Ipc for RtIpc {
         if c.booting {
             if msg.len() >= 20 && msg[0] == 2 && msg[1] == 0 {
                 let uid = u32::from_le_bytes([msg[8], msg[9], msg[10], msg[11]]);
-                let body = &msg[20..];
-                if let Some(p) = c.images.iter().find(|(_, im)| im.as_slice() == body).map(|(p, _)| *p) { c.canon.insert(uid, p); c.actual.insert(p, uid); }
+                c.boot_installs.push((uid, msg[20..].to_vec()));
+            } else if msg.len() >= 12 && msg[0] == 4 && msg[1] == 0 {
+                let uid = u32::from_le_bytes([msg[8], msg[9], msg[10], msg[11]]);
+                if let Some(n) = c.boot_name.clone() { c.uid_name.insert(uid, n); }
             }
             return Ok(());
         }
@@ -131,7 +143,10 @@ impl Ipc for RtIpc {
         if typ == 2 && msg.len() >= 20 {
             let uid = u32::from_le_bytes([msg[8], msg[9], msg[10], msg[11]]);
             let body = &msg[20..];
-            let pid = c.images.iter().find(|(_, im)| im.as_slice() == body).map(|(p, _)| *p);
+            let pid = match c.canon.get(&uid) {
+                Some(p) if c.images.iter().any(|(q, im)| q == p && im.as_slice() == body) => Some(*p),
+                _ => c.images.iter().find(|(_, im)| im.as_slice() == body).map(|(p, _)| *p),
+            };
             match pid {
                 Some(p) => { c.canon.insert(uid, p); c.actual.insert(p, uid); c.log.push(format!("INSTALL a{:x} {:x}", to, p + 1)); }
                 None => c.log.push(format!("INSTALL a{:x} UNKNOWN-IMAGE", to)),
@@ -154,13 +169,38 @@ impl Ipc for RtIpc {
         let mut c = self.ctx.lock().unwrap();
         if c.stopped { c.recv_after_stop += 1; }
         if !c.boot_done {
-            c.boot_done = true;
             c.booting = true;
-            let d = serialize::serialize(&ready::Msg { id: 0 }).unwrap();
+            let d = match c.boot_step {
+                0 => serialize::serialize(&ready::Msg { id: 0 }).unwrap(),
+                1 => serialize::serialize(&create::Msg { sid: 0xFFFF_FFF0, init_cwnd: 1, mss: 1, src_ip: 0, src_port: 0, dst_ip: 0, dst_port: 0, cong_alg: None }).unwrap(),
+                _ => serialize::serialize(&measure::Msg { sid: 0xFFFF_FFF0, program_uid: 0, num_fields: 0, fields: vec![] }).unwrap(),
+            };
+            c.boot_step += 1;
+            if c.boot_step == 3 { c.boot_done = true; }
             msg[..d.len()].copy_from_slice(&d);
             return Ok((d.len(), 0xFE));
         }
-        c.booting = false;
+        if c.booting {
+            // the bootstrap is over: name every uid.  An image identifies a program unless two
+            // names share one text; the name the hidden flow selected a uid under settles that,
+            // and a name registered for two texts is settled by the image.
+            c.booting = false;
+            let installs = std::mem::take(&mut c.boot_installs);
+            for (uid, body) in installs {
+                let name = c.uid_name.get(&uid).cloned();
+                let cands: Vec<usize> = c.images.iter().filter(|(_, im)| *im == body).map(|(p, _)| *p).collect();
+                let pick = cands.iter().find(|p| Some(PROGS[**p].0.to_string()) == name).or(cands.first()).cloned();
+                if let Some(p) = pick { c.canon.insert(uid, p); c.actual.insert(p, uid); }
+            }
+            let named: Vec<(u32, String)> = c.uid_name.iter().map(|(u, n)| (*u, n.clone())).collect();
+            for (uid, n) in named {
+                if !c.canon.contains_key(&uid) {
+                    // selected by name but never installed: still give it its program's number
+                    let taken: Vec<usize> = c.canon.values().cloned().collect();
+                    if let Some(p) = (0..PROGS.len()).find(|p| PROGS[*p].0 == n && !taken.contains(p)) { c.canon.insert(uid, p); c.actual.entry(p).or_insert(uid); }
+                }
+            }
+        }
         match c.script.pop_front() {
             Some(REv::D(a, syms)) => {
                 let mut d = vec![];
@@ -194,6 +234,7 @@ pub struct Alg<const K: usize> {
 }
 
 pub struct RecFlow {
+    hidden: bool,
     hid: usize,
     ctx: Arc<Mutex<Ctx>>,
     dp: Datapath<RtIpc>,
@@ -263,6 +304,7 @@ impl RecFlow {
 
 impl Flow for RecFlow {
     fn on_report(&mut self, sock_id: u32, m: Report) {
+        if self.hidden { return; }
         let cmds = {
             let mut c = self.ctx.lock().unwrap();
             let uid = match c.canon.get(&m.program_uid) { Some(p) => format!("{:x}", p + 1), None => format!("{:x}", m.program_uid) };
@@ -277,10 +319,10 @@ impl Flow for RecFlow {
         };
         self.exec(&cmds, Some(&m));
     }
-    fn close(&mut self) { self.ctx.lock().unwrap().log.push(format!("CLOSE h{}", self.hid)); }
+    fn close(&mut self) { if self.hidden { return; } self.ctx.lock().unwrap().log.push(format!("CLOSE h{}", self.hid)); }
 }
 impl Drop for RecFlow {
-    fn drop(&mut self) { self.ctx.lock().unwrap().log.push(format!("DROP h{}", self.hid)); }
+    fn drop(&mut self) { if self.hidden { return; } self.ctx.lock().unwrap().log.push(format!("DROP h{}", self.hid)); }
 }
 
 impl<const K: usize> CongAlg<RtIpc> for Alg<K> {
@@ -290,6 +332,19 @@ impl<const K: usize> CongAlg<RtIpc> for Alg<K> {
         self.progs.iter().map(|p| (PROGS[*p].0, PROGS[*p].1.to_string())).collect()
     }
     fn new_flow(&self, control: Datapath<RtIpc>, info: DatapathInfo) -> RecFlow {
+        if self.ctx.lock().unwrap().booting {
+            // the hidden flow: select every program by name so that its uid shows in a change-program message
+            let mut control = control;
+            let mut seen: Vec<&str> = vec![];
+            for (name, _) in PROGS.iter() {
+                if seen.contains(name) { continue; }
+                seen.push(name);
+                self.ctx.lock().unwrap().boot_name = Some(name.to_string());
+                let _ = catch(|| control.set_program(name, None).map(|_| ()));
+            }
+            self.ctx.lock().unwrap().boot_name = None;
+            return RecFlow { hidden: true, hid: usize::MAX, ctx: self.ctx.clone(), dp: control, rt_scopes: HashMap::new(), own: self.own.clone() };
+        }
         let (hid, cmds) = {
             let mut c = self.ctx.lock().unwrap();
             let hid = c.next_hid;
@@ -298,7 +353,7 @@ impl<const K: usize> CongAlg<RtIpc> for Alg<K> {
                 info.src_ip, info.src_port, info.dst_ip, info.dst_port, control.get_sock_id()));
             (hid, c.new_cmds.clone())
         };
-        let mut f = RecFlow { hid, ctx: self.ctx.clone(), dp: control, rt_scopes: HashMap::new(), own: self.own.clone() };
+        let mut f = RecFlow { hidden: false, hid, ctx: self.ctx.clone(), dp: control, rt_scopes: HashMap::new(), own: self.own.clone() };
         f.exec(&cmds, None);
         f
     }
@@ -465,7 +520,7 @@ pub fn run_case(case: &Case) -> String {
     let probe_src = format!("(def (Report {})) (when true (report))", (0..16).map(|i| format!("(f{} 0)", i)).collect::<Vec<_>>().join(" "));
     let probe = catch(|| portus::lang::compile(probe_src.as_bytes(), &[])).and_then(|r| r.ok()).map(|(_, sc)| sc);
     let ctx = Arc::new(Mutex::new(Ctx {
-        probe, booting: false, boot_done: false,
+        probe, booting: false, boot_done: false, boot_step: 0, boot_name: None, uid_name: HashMap::new(), boot_installs: vec![],
         log: vec![], script: case.events.clone().into(), sends: 0, sendfail: case.sendfail.clone(), next_hid: 0,
         images, canon: HashMap::new(), actual: HashMap::new(), closed: 0, stopped: false, recv_after_stop: 0,
         new_cmds: case.new_cmds.clone(), rep_cmds: case.rep_cmds.clone(),
@@ -536,7 +591,7 @@ fn gen_fields(r: &mut Rng, n: usize) -> String {
 }
 fn gen_ctl_fields(r: &mut Rng, prog: &str, n: usize) -> String {
     // mostly controllable names of that program
-    let pool: &[&str] = match prog { "alpha" => &["ctl", "vctl", "Cwnd", "Rate"], "beta" => &["thresh", "Cwnd"], "gamma" => &["k", "Rate"],
+    let pool: &[&str] = match prog { "alpha" | "alpha2" => &["ctl", "vctl", "Cwnd", "Rate"], "beta" => &["thresh", "Cwnd"], "gamma" => &["k", "Rate"],
         "delta" => &["a", "b", "c", "Cwnd", "Rate"], _ => &["c1", "c2", "Cwnd"] };
     if n == 0 { return "-".into(); }
     (0..n).map(|_| format!("{}={:x}", if r.chance(9, 10) { *r.pick(pool) } else { *r.pick(&PROBE_NAMES) }, r.u32b())).collect::<Vec<_>>().join("&")
@@ -544,9 +599,9 @@ fn gen_ctl_fields(r: &mut Rng, prog: &str, n: usize) -> String {
 fn gen_cmds(r: &mut Rng, report: bool) -> String {
     let n = r.below(4);
     if n == 0 { return "-".into(); }
-    let progs = ["alpha", "beta", "gamma", "dup", "delta", "nosuchprog", "bad"];
+    let progs = ["alpha", "beta", "gamma", "dup", "delta", "alpha2", "nosuchprog", "bad"];
     (0..n).map(|_| {
-        let p = if r.chance(5, 6) { *r.pick(&progs[..5]) } else { *r.pick(&progs) };
+        let p = if r.chance(5, 6) { *r.pick(&progs[..6]) } else { *r.pick(&progs) };
         let k = if report { r.below(6) } else { r.below(3) };
         let nf = r.below(4) as usize;
         match k {
@@ -559,7 +614,7 @@ fn gen_cmds(r: &mut Rng, report: bool) -> String {
 }
 
 fn report_fields_of(p: usize) -> &'static [&'static str] {
-    match p { 0 => &["Report.acked", "Report.rtt"], 1 => &["Report.loss", "Report.sacked", "Report.inflight"], 2 => &["Report.x"],
+    match p { 0 | 7 => &["Report.acked", "Report.rtt"], 1 => &["Report.loss", "Report.sacked", "Report.inflight"], 2 => &["Report.x"],
         3 => &["Report.one"], 4 => &["Report.two", "Report.three"], _ => &["Report.m"] }
 }
 
@@ -583,6 +638,7 @@ pub fn gen_case(r: &mut Rng, adversarial: bool, faults: bool) -> String {
     for i in &insts {
         let mut ps: Vec<usize> = vec![];
         for p in [0usize, 1, 2, 3, 4, 6] { if r.chance(1, 2) { ps.push(p); } }
+        if r.chance(1, 3) { ps.push(7); }
         if ps.contains(&3) && ps.contains(&4) { ps.retain(|x| *x != 4); }   // one map cannot hold a name twice
         if *i == 0 && ps.is_empty() { ps.push(0); }
         if r.chance(1, 80) { ps.push(5); }
@@ -610,7 +666,7 @@ pub fn gen_case(r: &mut Rng, adversarial: bool, faults: bool) -> String {
     let nev = r.range(2, 16);
     let addrs = [1u8, 2, 3];
     let sids = [1u32, 2, 3, 0x10];
-    let algnames = ["-", "-", "reno", "renoX", "cubic", "dflt", "ren", "renoXY", "zzz", "", "renoreno0123456789012345678901234567890123456789012345678901234"];
+    let algnames = ["-", "-", "reno", "renoX", LONG63, LONG63, "cubic", "dflt", "ren", "renoXY", "zzz", "", "renoreno0123456789012345678901234567890123456789012345678901234", &LONG63[..62]];
     let mut evs = vec![];
     let mut live: Vec<(u8, u32)> = vec![];
     let mut sends_guess = 0usize;
@@ -640,7 +696,7 @@ pub fn gen_case(r: &mut Rng, adversarial: bool, faults: bool) -> String {
                 let n = if r.chance(1, 10) { r.below(20) } else { r.range(1, 4) } as usize;
                 let u = if after_raw { format!("x{:x}", 0xF000_0000u32 + r.below(100) as u32) }
                     else if r.chance(3, 4) { format!("p{}", main) }
-                    else if r.chance(2, 3) { format!("p{}", r.pick(&[0usize, 1, 2, 3, 4, 6])) }
+                    else if r.chance(2, 3) { format!("p{}", r.pick(&[0usize, 1, 2, 3, 4, 6, 7])) }
                     else { format!("x{:x}", 0xF000_0000u32 + r.below(100) as u32) };
                 let nf = if r.chance(1, 15) { r.below(6) } else { n as u64 };
                 if nf == 0 { live.retain(|x| *x != (a, sid)); }
@@ -685,5 +741,48 @@ pub fn run_stream(kind: &str, tier: &str, seed: u64, out: &mut dyn Write) {
         let arg = gen_case(&mut r, adv, faults);
         let res = eval(&arg);
         writeln!(out, "loop\t{}\t{}", with_descriptors(&arg, &desc), res).unwrap();
+    }
+}
+
+// ------------------------------------------------------------------ C16: ignored messages are inert
+
+/// A datagram the runtime must ignore whatever state it is in: a well-framed message of an
+/// unknown type, or a measurement / close for a flow id no create ever announced (0x77).
+fn gen_junk(r: &mut Rng) -> String {
+    let a = r.range(1, 3);
+    match r.below(4) {
+        0 => format!("D{:x}:MS:77:xf0000009:{:x}:{}", a, 1 + r.below(3), (0..3).map(|_| format!("{:x}", r.u64b())).collect::<Vec<_>>().join(",")),
+        1 => format!("D{:x}:MS:77:xf0000001:0:-", a),
+        2 => { let t = *r.pick(&[6u8, 7, 9, 200, 255]); let k = r.below(12) as usize; let mut b = vec![t, 0, 8 + k as u8, 0]; b.extend(r.bytes(4 + k)); format!("D{:x}:RAW:{}", a, hex(&b)) }
+        _ => { let t = *r.pick(&[6u8, 9, 255]); let mut b = vec![t, 0, 8, 0, 1, 0, 0, 0]; b.extend(vec![t, 0, 12, 0, 2, 0, 0, 0, 1, 2, 3, 4]); format!("D{:x}:RAW:{}", a, hex(&b)) }
+    }
+}
+
+pub fn eval_ignore(arg: &str) -> String {
+    match arg.split_once(" ## ") {
+        Some((a, b)) => {
+            let (ra, rb) = (eval(a), eval(b));
+            if ra == rb { "SAME".into() } else { format!("DIFF {} ## {}", ra, rb) }
+        }
+        None => "UNPARSABLE".into(),
+    }
+}
+
+/// metamorphic: the same history with and without ignorable datagrams, both through the implementation
+pub fn run_ignore_stream(tier: &str, seed: u64, out: &mut dyn Write) {
+    let n = if tier == "thorough" { 30_000 } else { 1_500 };
+    let mut r = Rng::new(seed ^ 0x1616);
+    let desc = prog_descriptors();
+    for _ in 0..n {
+        let adv = r.chance(1, 3);
+        let base = gen_case(&mut r, adv, false);
+        let secs: Vec<&str> = base.split(" | ").collect();
+        let mut evs: Vec<String> = if secs[4].trim() == "-" { vec![] } else { secs[4].split(" ; ").map(|x| x.to_string()).collect() };
+        let k = r.range(1, 3);
+        for _ in 0..k { let pos = r.below(evs.len() as u64 + 1) as usize; evs.insert(pos, gen_junk(&mut r)); }
+        let variant = format!("{} | {}", secs[..4].join(" | "), evs.join(" ; "));
+        let arg = format!("{} ## {}", base, variant);
+        let res = eval_ignore(&arg);
+        writeln!(out, "ignore\t{} ## {}\t{}", with_descriptors(&base, &desc), with_descriptors(&variant, &desc), res).unwrap();
     }
 }
